@@ -248,6 +248,24 @@ func (g *G) Bundle(nFiles, nTmpl int) *Program {
 		f.Templates = append(f.Templates, t)
 		slots[i] = slot{f, t}
 	}
+	g.recTarget = ""
+	if g.O.Recursion {
+		// {template .rec}: counts down, calls itself with n - 1 (two call forms), prints on the way down and up
+		f := b.Files[len(b.Files)-1]
+		rec := &ref.Template{Name: "rec", Params: []ref.ParamDecl{{Name: "n"}}}
+		n := &ref.DataRef{Name: "n"}
+		dec := &ref.Binary{Op: "-", L: n, R: lit(ref.Int(1))}
+		inner := &ref.CallT{Target: f.Namespace + ".rec", NameSrc: ".rec", Params: []ref.Param{{Name: "n", E: dec}}}
+		if g.R.Bool() {
+			inner = &ref.CallT{Target: f.Namespace + ".rec", NameSrc: ".rec", Data: &ref.MapLit{Keys: []string{"n"}, Vals: []ref.Expr{dec}}, SelfClose: true}
+		}
+		// (the depth is bounded by the data AND by the template itself, so that hostile data cannot make it run away)
+		rec.Body = []ref.Node{&ref.If{Conds: []ref.Expr{&ref.Binary{Op: "and", L: &ref.Binary{Op: ">", L: n, R: lit(ref.Int(0))}, R: &ref.Binary{Op: "<", L: n, R: lit(ref.Int(9))}}},
+			Bodies:  [][]ref.Node{{&ref.Raw{Text: "("}, &ref.Print{E: n}, &ref.LetVal{Name: "up", E: &ref.Binary{Op: "*", L: n, R: lit(ref.Int(2))}}, inner, &ref.Print{E: &ref.DataRef{Name: "up"}}, &ref.Raw{Text: ")"}}},
+			HasElse: true, Else: []ref.Node{&ref.Raw{Text: "."}}}}
+		f.Templates = append(f.Templates, rec)
+		g.recTarget = f.Namespace + ".rec"
+	}
 	for i := nTmpl - 1; i >= 0; i-- {
 		f, t := slots[i].f, slots[i].t
 		g.curFile = f
